@@ -37,6 +37,7 @@ def run(ctx):
     cases = list(corpus.single_request_cases(names, KINDS, decisions=("abort", "stop", "halt", "resume"), probe=False))
     if ctx.quick:
         cases = [c for i, c in enumerate(cases) if i % 3 == ctx.seed % 3]
+    cases += list(corpus.single_fault_cases(names, kinds=("raise", "status_fail"), probe=False))
     ctx.sweep(cases, check_case)
     ctx.extra["sweep_cases"] = len(cases)
     e1common.generated(ctx, check_case, n=ctx.pick(800, 30000), profile="general")
